@@ -538,7 +538,7 @@ func rawParsers(c *hx.Ctx, seed uint64, n int) {
 }
 
 func Run(c *hx.Ctx) {
-	c.Rep.Rule = "valid documents from the harness writers (PDF in random physical layouts, XLSX, HTML) x every single fault of the catalogue at every site (numbers -> 0,-1,2^31,2^63-1; references -> self/root/missing; delimiters removed/added; objects/members dropped/duplicated; stream data flipped/truncated; /Length, xref entries, /W, /Prev, /Size, trailer; truncation at token boundaries; targeted field rewrites) + sampled double faults + byte mutation + hostile token soup into the raw parsers; every case runs 5-6 public entry points under a 10 s deadline and a 3 GiB heap limit; every case is non-trivial"
+	c.Rep.Rule = "valid documents of all seven formats from the harness writers (PDF in random physical layouts, DOCX, ODT, XLSX, PPTX, EPUB, HTML) x every single fault of the catalogue at every site (numbers -> 0,-1,2^31,2^63-1; references -> self/root/missing; delimiters removed/added; objects/members dropped/duplicated; stream data flipped/truncated; /Length, xref entries, /W, /Prev, /Size, trailer; truncation at token boundaries; targeted field rewrites) + sampled double faults + byte mutation + hostile token soup into the raw parsers; every case runs 5-6 public entry points under a 10 s deadline and a 3 GiB heap limit; every case is non-trivial"
 	xrefStreamOps(c)
 	gridOps(c)
 	ptreeOps(c)
@@ -563,6 +563,9 @@ func Run(c *hx.Ctx) {
 		}
 	}
 	xlsxFaults(c, c.Seed, c.N(250, 5000))
+	for _, f := range ZipFormats {
+		zipFaults(c, f, c.Seed, c.N(140, 2500))
+	}
 	htmlFaults(c, c.Seed, c.N(120, 1500))
 	rawParsers(c, c.Seed, c.N(1500, 60000))
 }
